@@ -271,6 +271,21 @@ def do_compute(state, spec, workers):
         return op, ("fresh_process: under mode %s %s -> %r, a process that only"
                     " ever used %s answers %r" % (cm, json.dumps(op), got, cm,
                                                   want))
+    if op["op"] in ("add", "add_months") and isinstance(got, str):
+        # arithmetic must follow the mode's own month/year lengths
+        base = dict(op["p"], hour_of_day=0, minute_of_hour=0, second_of_minute=0,
+                    time_zone_hour=0, time_zone_minute=0,
+                    num_expanded_year_digits=2)
+        d = op["d"] if op["op"] == "add" else {"months": op["n"]}
+        if "weeks" in d:
+            d = {"days": 7 * d["weeks"]}
+        exp_kw = RC.ref_step(cm, base, d, 1)
+        y = exp_kw["year"]
+        ys = "%s%06d" % ("-" if y < 0 else "+", abs(y))
+        want_text = ys + RC.render_point(dict(exp_kw, year=2000))[4:]
+        if got != want_text:
+            return op, ("definition: mode %s %s -> %s, the mode's calendar "
+                        "gives %s" % (cm, json.dumps(op), got, want_text))
     if op["op"] == "dur_cmp" and isinstance(got, list):
         # a nominal year counts as the mode's common-year length
         want_days = op["a"]["years"] * R.ylen(cm, 2001)
